@@ -46,6 +46,11 @@ def r1(R, repo):
     ok = w in with_both and w in c.reach(add) and add[0] not in c.reach([w])
     R.check(ok, key_of(f, 'mask applied also when a bias is given, after the bias'), (f, w.stmt), evidence=True, msg_fail=
             'with both `bias` and `mask` given the mask must still be applied (after the bias addition): an `elif mask` skips it, so masked / future positions receive weight')
+    rescale = [n for n in c.nodes if isinstance(n.stmt, (ast.Assign, ast.AugAssign)) and astu.src(n.stmt.targets[0] if isinstance(n.stmt, ast.Assign) else n.stmt.target) == 'attn_weights' and
+               ((isinstance(n.stmt, ast.Assign) and isinstance(n.stmt.value, ast.BinOp) and isinstance(n.stmt.value.op, (ast.Div, ast.Mult)) and astu.src(n.stmt.value.left) == 'attn_weights') or
+                (isinstance(n.stmt, ast.AugAssign) and isinstance(n.stmt.op, (ast.Div, ast.Mult)))) and ('depth' in astu.src(n.stmt) or 'sqrt' in astu.src(n.stmt) or 'scale' in astu.src(n.stmt))]
+    late = [n for n in rescale if n in c.reach(add)]
+    R.check(not late, key_of(f, 'logits scaled before the bias is added'), (f, late[0].stmt) if late else f, '`%s` rescales the logits after the bias was added: the weights become softmax((q.k + bias)/sqrt(d)) instead of softmax(q.k/sqrt(d) + bias)' % (astu.short(late[0].stmt) if late else ''), evidence=True)
     rets = [n for n in c.nodes if isinstance(n.stmt, ast.Return)]
     R.judge(len(rets) == 1 and astu.src(rets[0].stmt.value) == 'attn_weights', len(rets) == 1 and c.must_pass(c.entry, rets[0], soft), key_of(f, 'returns the softmaxed weights'), f, 'the returned weights must have passed through the softmax')
 
@@ -175,5 +180,7 @@ meta('C13',
          Mutant('C13-m2', LR, "      init_key=key_backward,\n      seq_lengths=seq_lengths,\n", "      init_key=key_backward,\n", 'C13.R4', why='seed C13-B'),
          Mutant('C13-m3', NA, "      self.cache_index.value += 1\n", "", 'C13.R2'),
          Mutant('C13-m4', LA, "            jnp.arange(max_length) <= cur_index,", "            jnp.arange(max_length) < cur_index,", 'C13.R2'),
+         Mutant('C13-m6', LA, "    attn_weights = attn_weights + bias\n", "    attn_weights = attn_weights + bias\n  attn_weights = attn_weights / jnp.sqrt(depth).astype(dtype)\n", 'C13.R1', why='seed C13-D (round 2)'),
+         Mutant('C13-m7', LR, "    slice_carry = seq_lengths is not None and return_carry", "    slice_carry = seq_lengths is not None and self.return_carry", 'C13.R3', why='seed C13-C (round 2)'),
          Mutant('C13-m5', LR, "      carry = _select_last_carry(carries, seq_lengths)", "      carry = jax.tree_util.tree_map(lambda x: x[-1], carries)", 'C13.R3'),
      ])
